@@ -389,7 +389,7 @@ fn gen(tier: &str, seed: u64, out: &mut dyn FnMut(String)) {
             for n in [0usize, 1, 3] { out(format!("diag {ty} {} {k}", tag_off(&[n], 1))); out(format!("diagflat {ty} {} {k}", tag_off(&[n], 1))); out(format!("diag_diag {ty} {} {k}", tag_off(&[n], 1))); }
         }
         // a side whose square overflows usize but which itself fits: 2^32 + small
-        for k in [4294967296isize, -4294967296, 4294967295, 3037000500] { out(format!("diag {ty} {} {k}", tag_off(&[1], 1))); }
+        for k in [4294967296isize, -4294967296, 4294967295] { out(format!("diag {ty} {} {k}", tag_off(&[1], 1))); }
         // ---- vander: every length 0..6, every column count, both orders; values small enough for u8
         let vals: Vec<i64> = if signed { vec![-2, -1, 0, 1, 2, 3, -3, 2, 1] } else { vec![0, 1, 2, 3, 2, 1, 3, 0, 2] };
         for &n in &sides {
